@@ -103,7 +103,7 @@ UNIT = {
         chars.remaining().len() < i32::MAX,
     ensures r == complete(chars.remaining()),""",
          "loops": {1: {"expect_kw": "for",
-                       "header": (r"for c in chars", "for c in it: chars"),
+                       "iter_name": "it",
                        "invariant": """        invariant
             (count as int, mode_of(state)) == run(it.history()),
             it.seq().len() < i32::MAX,
@@ -121,7 +121,7 @@ UNIT = {
 import copy as _copy
 UNIT_ASFOUND = _copy.deepcopy(UNIT)
 UNIT_ASFOUND["items"] = [it for it in UNIT_ASFOUND["items"] if it.get("name") != "ScanState"]
-UNIT_ASFOUND["items"][0]["loops"] = {1: {"expect_kw": "for", "header": (r"for c in chars", "for c in it: chars"),
+UNIT_ASFOUND["items"][0]["loops"] = {1: {"expect_kw": "for", "iter_name": "it",
     "invariant": """        invariant
             -it.history().len() <= count <= it.history().len(),
             it.seq().len() < i32::MAX,
